@@ -17,6 +17,8 @@ use std::sync::{Arc, Mutex};
 pub enum Call {
   /// next(v) during which observer `.1`'s callback subscribes the new observer `.2`
   NextNested(i64, usize, usize),
+  /// error() (true) / complete() (false) during which observer `.1`'s terminal callback subscribes the new observer `.2`
+  TermNested(bool, usize, usize),
   Sub(usize),
   Unsub(usize),
   Next(i64),
@@ -27,6 +29,7 @@ fn show(h: &[Call]) -> String {
   h.iter()
     .map(|c| match c {
       Call::NextNested(v, o, i) => format!("next({}) [observer {}'s callback subscribes observer {}]", v, o, i),
+      Call::TermNested(e, o, i) => format!("{} [observer {}'s callback subscribes observer {}]", if *e { "error" } else { "complete" }, o, i),
       Call::Sub(i) => format!("subscribe_{}", i),
       Call::Unsub(i) => format!("unsubscribe_{}", i),
       Call::Next(v) => format!("next({})", v),
@@ -41,7 +44,7 @@ fn show(h: &[Call]) -> String {
 /// subscription (renaming symmetry), nothing but subscribe/unsubscribe after
 /// the terminal (what a subject does with next after its terminal is not fixed)
 pub fn histories(max_len: usize, max_obs: usize) -> Vec<Vec<Call>> {
-  fn rec(cur: &mut Vec<Call>, n_sub: usize, unsubbed: &mut Vec<u8>, terminated: bool, max_len: usize, max_obs: usize, out: &mut Vec<Vec<Call>>) {
+  fn rec(cur: &mut Vec<Call>, n_sub: usize, unsubbed: &mut Vec<u8>, terminated: u8, max_len: usize, max_obs: usize, out: &mut Vec<Vec<Call>>) {
     if !cur.is_empty() {
       out.push(cur.clone());
     }
@@ -65,10 +68,18 @@ pub fn histories(max_len: usize, max_obs: usize) -> Vec<Vec<Call>> {
         cur.pop();
       }
     }
-    if !terminated {
+    if terminated == 1 {
+      // one call a well-behaved caller would not make: next / a second terminal after the terminal
+      for c in [Call::Next(1), Call::Error, Call::Complete] {
+        cur.push(c);
+        rec(cur, n_sub, unsubbed, 2, max_len, max_obs, out);
+        cur.pop();
+      }
+    }
+    if terminated == 0 {
       for v in [1, 2] {
         cur.push(Call::Next(v));
-        rec(cur, n_sub, unsubbed, false, max_len, max_obs, out);
+        rec(cur, n_sub, unsubbed, 0, max_len, max_obs, out);
         cur.pop();
       }
       // a subscriber joins from inside another observer's callback, i.e. while the item is being delivered
@@ -77,7 +88,7 @@ pub fn histories(max_len: usize, max_obs: usize) -> Vec<Vec<Call>> {
           if unsubbed[o] == 0 {
             cur.push(Call::NextNested(1, o, n_sub));
             unsubbed.push(0);
-            rec(cur, n_sub + 1, unsubbed, false, max_len, max_obs, out);
+            rec(cur, n_sub + 1, unsubbed, 0, max_len, max_obs, out);
             unsubbed.pop();
             cur.pop();
           }
@@ -85,13 +96,27 @@ pub fn histories(max_len: usize, max_obs: usize) -> Vec<Vec<Call>> {
       }
       for t in [Call::Error, Call::Complete] {
         cur.push(t);
-        rec(cur, n_sub, unsubbed, true, max_len, max_obs, out);
+        rec(cur, n_sub, unsubbed, 1, max_len, max_obs, out);
         cur.pop();
+      }
+      // a subscriber joins from inside another observer's terminal callback
+      if n_sub < max_obs {
+        for o in 0..n_sub {
+          if unsubbed[o] == 0 {
+            for e in [true, false] {
+              cur.push(Call::TermNested(e, o, n_sub));
+              unsubbed.push(0);
+              rec(cur, n_sub + 1, unsubbed, 1, max_len, max_obs, out);
+              unsubbed.pop();
+              cur.pop();
+            }
+          }
+        }
       }
     }
   }
   let mut out = vec![];
-  rec(&mut vec![], 0, &mut vec![], false, max_len, max_obs, &mut out);
+  rec(&mut vec![], 0, &mut vec![], 0, max_len, max_obs, &mut out);
   out
 }
 
@@ -115,7 +140,7 @@ pub enum Attach {
 }
 
 fn reference(kind: SubjKind, attach: Attach, h: &[Call]) -> (Vec<Vec<Exp>>, Vec<Option<usize>>, u64) {
-  let n_obs = h.iter().filter(|c| matches!(c, Call::Sub(_) | Call::NextNested(..))).count();
+  let n_obs = h.iter().filter(|c| matches!(c, Call::Sub(_) | Call::NextNested(..) | Call::TermNested(..))).count();
   let mut live: Vec<usize> = vec![];
   let mut items: Vec<i64> = vec![];
   let mut current: i64 = 0; // BehaviorSubject::new(0)
@@ -130,8 +155,24 @@ fn reference(kind: SubjKind, attach: Attach, h: &[Call]) -> (Vec<Vec<Exp>>, Vec<
   // Take1: observers that have had their item; observers of which the reference cannot tell
   let mut ended: Vec<bool> = vec![false; n_obs];
   let mut unsure: Vec<bool> = vec![false; n_obs];
+  // a plain / async subject called after its terminal: nothing is fixed from there on
+  let mut unfixed = false;
   for c in h {
     let mut exp: Vec<Exp> = vec![Exp::Exactly(vec![]); n_obs];
+    if terminal.is_some() && matches!(c, Call::Next(_) | Call::Error | Call::Complete) {
+      match kind {
+        // the first terminal is final: a later next / terminal changes nothing, for nobody
+        SubjKind::Behavior | SubjKind::Replay => {}
+        _ => unfixed = true,
+      }
+      if unfixed {
+        permissive += 1;
+        exp = vec![Exp::Anything; n_obs];
+      }
+      steps.push(exp);
+      counts.push(if count_known && !unfixed { Some(live.len()) } else { None });
+      continue;
+    }
     match c {
       Call::Sub(i) => match (&terminal, kind) {
         (None, SubjKind::Plain) | (None, SubjKind::Async) => live.push(*i),
@@ -204,6 +245,42 @@ fn reference(kind: SubjKind, attach: Attach, h: &[Call]) -> (Vec<Vec<Exp>>, Vec<
         }
         live.clear();
       }
+      Call::TermNested(is_err, outer, inner) => {
+        let t = if *is_err { Ev::E(7) } else { Ev::C };
+        terminal = Some(t.clone());
+        let outer_live = live.contains(outer);
+        for o in &live {
+          exp[*o] = match (kind, is_err) {
+            (SubjKind::Async, false) => match (seen[*o], last_pushed) {
+              (Some(v), _) => Exp::Exactly(vec![Ev::n(v), Ev::C]),
+              (None, None) => Exp::Exactly(vec![Ev::C]),
+              (None, Some(l)) => {
+                permissive += 1;
+                Exp::OneOf(vec![vec![Ev::C], vec![Ev::n(l), Ev::C]])
+              }
+            },
+            _ => Exp::Exactly(vec![t.clone()]),
+          };
+        }
+        live.clear();
+        if outer_live {
+          match kind {
+            // the terminal is stored before anybody is told: the joiner is handed it
+            SubjKind::Behavior => exp[*inner] = Exp::Exactly(vec![t.clone()]),
+            SubjKind::Replay => {
+              let mut v: Vec<Ev> = items.iter().map(|x| Ev::n(*x)).collect();
+              v.push(t.clone());
+              exp[*inner] = Exp::Exactly(v)
+            }
+            // a plain / async subject and a subscriber that arrives during / after the terminal: not fixed
+            _ => {
+              exp[*inner] = Exp::Anything;
+              permissive += 1;
+              count_known = false;
+            }
+          }
+        }
+      }
       Call::Complete => {
         terminal = Some(Ev::C);
         for o in &live {
@@ -264,8 +341,11 @@ fn reference(kind: SubjKind, attach: Attach, h: &[Call]) -> (Vec<Vec<Exp>>, Vec<
         }
       }
     }
+    if unfixed {
+      exp = vec![Exp::Anything; n_obs];
+    }
     steps.push(exp);
-    counts.push(if count_known { Some(live.len()) } else { None });
+    counts.push(if count_known && !unfixed { Some(live.len()) } else { None });
   }
   (steps, counts, permissive)
 }
@@ -277,7 +357,7 @@ struct RealOut {
 }
 
 fn run_real(kind: SubjKind, via_map: Attach, shared: bool, h: &[Call]) -> RealOut {
-  let n_obs = h.iter().filter(|c| matches!(c, Call::Sub(_) | Call::NextNested(..))).count();
+  let n_obs = h.iter().filter(|c| matches!(c, Call::Sub(_) | Call::NextNested(..) | Call::TermNested(..))).count();
   let log: Arc<Mutex<Vec<(usize, usize, Ev)>>> = Arc::new(Mutex::new(vec![]));
   let step = Arc::new(AtomicUsize::new(0));
   let counts = Arc::new(Mutex::new(vec![]));
@@ -329,8 +409,44 @@ fn run_real(kind: SubjKind, via_map: Attach, shared: bool, h: &[Call]) -> RealOu
             subscribe_obs(inner, &sbj2, via_map, &one2, &log2, &step2, &subs2, &armed2);
           }
         },
-        move |e| l2.lock().unwrap().push((s2.load(Ordering::Relaxed), i, Ev::E(err_code(&e)))),
-        move || l3.lock().unwrap().push((s3.load(Ordering::Relaxed), i, Ev::C)),
+        {
+          let (sbj3, log3, step3, subs3, armed3, one3) = (sbj.clone(), log.clone(), step.clone(), subs.clone(), armed.clone(), one.clone());
+          move |e| {
+            l2.lock().unwrap().push((s2.load(Ordering::Relaxed), i, Ev::E(err_code(&e))));
+            let fire = {
+              let mut a = armed3.lock().unwrap();
+              match *a {
+                Some((outer, inner)) if outer == i => {
+                  *a = None;
+                  Some(inner)
+                }
+                _ => None,
+              }
+            };
+            if let Some(inner) = fire {
+              subscribe_obs(inner, &sbj3, via_map, &one3, &log3, &step3, &subs3, &armed3);
+            }
+          }
+        },
+        {
+          let (sbj4, log4, step4, subs4, armed4, one4) = (sbj.clone(), log.clone(), step.clone(), subs.clone(), armed.clone(), one.clone());
+          move || {
+            l3.lock().unwrap().push((s3.load(Ordering::Relaxed), i, Ev::C));
+            let fire = {
+              let mut a = armed4.lock().unwrap();
+              match *a {
+                Some((outer, inner)) if outer == i => {
+                  *a = None;
+                  Some(inner)
+                }
+                _ => None,
+              }
+            };
+            if let Some(inner) = fire {
+              subscribe_obs(inner, &sbj4, via_map, &one4, &log4, &step4, &subs4, &armed4);
+            }
+          }
+        },
       );
       subs.lock().unwrap()[i] = Some(s);
     }
@@ -341,6 +457,15 @@ fn run_real(kind: SubjKind, via_map: Attach, shared: bool, h: &[Call]) -> RealOu
         Call::NextNested(v, outer, inner) => {
           *armed.lock().unwrap() = Some((*outer, *inner));
           sbj.next(*v);
+          *armed.lock().unwrap() = None;
+        }
+        Call::TermNested(is_err, outer, inner) => {
+          *armed.lock().unwrap() = Some((*outer, *inner));
+          if *is_err {
+            sbj.error(crate::tcommon::err(7))
+          } else {
+            sbj.complete()
+          }
           *armed.lock().unwrap() = None;
         }
         Call::Unsub(i) => {
